@@ -1,7 +1,8 @@
 (* C14 -- kernel evaluation of the model on the translated bundled schema testlib_2_1_0 (Gen/Schema_testlib_2_1_0_c14.v).
    The environment names exactly the previous versions HedIDValidator.__init__ asks load_schema_version for;
-   a missing one would make the evaluation raise HedFileError and this file fail.  One evaluation only:
-   the warnings-off half follows from check_compliance_off. *)
+   a missing one would make the evaluation raise HedFileError and this file fail.  One evaluation only
+   ([evaluate]: check with warnings on + the boolean checker of [checkable]); the warnings-off half follows from
+   check_compliance_off. *)
 From Coq Require Import List NArith ZArith String.
 From HV Require Import Base.Res Base.Str Base.C14Base Gen.ComplianceTables Model.Compliance
      Proofs.ComplianceProofs Proofs.C14ExCommon Gen.C14_Env.
@@ -11,8 +12,18 @@ Local Open Scope string_scope.
 
 Definition env_testlib_2_1_0 : env := bundled_env [(s2str "testlib_2.0.0", Schema_testlib_2_0_0_c14.schema); (s2str "8.1.0", Schema_8_1_0_c14.schema)].
 
-Lemma errors_testlib_2_1_0 : errors_of (check_compliance fixed_all env_testlib_2_1_0 true Schema_testlib_2_1_0_c14.schema) = Ok [].
-Proof. vm_cast_no_check (@eq_refl (res (list issue)) (Ok [])). Qed.
+(* one kernel evaluation: no error-severity issue, and the checker of [checkable] says yes *)
+Lemma evaluated_testlib_2_1_0 : evaluate env_testlib_2_1_0 Schema_testlib_2_1_0_c14.schema = Ok ([], true).
+Proof. vm_cast_no_check (@eq_refl (res (list issue * bool)) (Ok ([], true))). Qed.
 
 Lemma compliant_testlib_2_1_0 : no_error env_testlib_2_1_0 Schema_testlib_2_1_0_c14.schema.
-Proof. apply no_error_of_errors. exact errors_testlib_2_1_0. Qed.
+Proof. apply no_error_of_errors. exact (proj1 (evaluate_sound _ _ _ evaluated_testlib_2_1_0)). Qed.
+
+(* the premise of the seeded-fault theorems holds of the loaded bundled schema *)
+Lemma checkable_testlib_2_1_0 : exists L, load env_testlib_2_1_0 Schema_testlib_2_1_0_c14.schema = Ok L /\ checkable env_testlib_2_1_0 L.
+Proof. exact (proj2 (evaluate_sound _ _ _ evaluated_testlib_2_1_0)). Qed.
+
+(* in this schema suggestedTag / relatedTag / unitClass / valueClass carry the existence rule and defaultUnits
+   the unit rule (old table, or 8.3 range properties of the attribute definitions) *)
+Lemma reference_rules_testlib_2_1_0 : loaded_has_reference_rules env_testlib_2_1_0 Schema_testlib_2_1_0_c14.schema = true.
+Proof. vm_cast_no_check (@eq_refl bool true). Qed.
